@@ -46,9 +46,59 @@ def anychar():
     return z3.Range(chr(0), chr(0x10FFFF)) if False else z3.AllChar(z3.ReSort(S))
 
 
-def from_pattern(pattern, full=True):
+_FLAGS = [0]
+_STATE = [None]
+_CHARSETS = {}
+
+
+def host_charset(op, av, flags):
+    """the code points a one-character node (literal / class / category) matches under `flags`,
+    obtained from CPython's own regex engine (ground facts): ranges [(lo, hi)]"""
+    key = (repr((op, av)), int(flags))
+    if key in _CHARSETS:
+        return _CHARSETS[key]
+    import re._compiler as sre_compile
+
+    sp = sre_parse.SubPattern(_STATE[0], [(op, av)])
+    pat = sre_compile.compile(sp, flags)
+    fm = pat.fullmatch
+    ranges = []
+    start = None
+    for c in range(0x110000):
+        if 0xD800 <= c <= 0xDFFF:
+            hit = False
+        else:
+            hit = fm(chr(c)) is not None
+        if hit and start is None:
+            start = c
+        elif not hit and start is not None:
+            ranges.append((start, c - 1))
+            start = None
+    if start is not None:
+        ranges.append((start, 0x10FFFF))
+    _CHARSETS[key] = ranges
+    return ranges
+
+
+def charset_re(ranges):
+    return union([lit(chr(a)) if a == b else z3.Range(chr(a), chr(b)) for a, b in ranges])
+
+
+def pattern_flags(flags):
+    """flags that change which characters a node matches"""
+    return int(flags) & int(re.IGNORECASE | re.ASCII | re.LOCALE)
+
+
+def from_pattern(pattern, full=True, flags=0):
     """z3 regex of the language of strings the Python pattern matches *entirely*"""
-    tree = sre_parse.parse(pattern)
+    if int(flags) & int(re.VERBOSE | re.MULTILINE | re.DOTALL | re.LOCALE):
+        raise NotImplementedError("regex flags %r" % (flags,))
+    tree = sre_parse.parse(pattern, flags)
+    _STATE[0] = tree.state
+    # inline flags such as (?i) end up in the parser state
+    _FLAGS[0] = pattern_flags(int(flags) | int(tree.state.flags))
+    if int(tree.state.flags) & int(re.VERBOSE | re.MULTILINE | re.DOTALL | re.LOCALE):
+        raise NotImplementedError("regex flags %r" % (tree.state.flags,))
     items = list(tree)
     if items and items[0][0] == C.AT and items[0][1] in (C.AT_BEGINNING, C.AT_BEGINNING_STRING):
         items = items[1:]
@@ -62,6 +112,15 @@ def seq(items):
 
 
 def node(op, av):
+    fl = _FLAGS[0]
+    if fl & int(re.IGNORECASE) and op in (C.LITERAL, C.NOT_LITERAL, C.IN, C.CATEGORY):
+        # case-insensitive matching: the exact character set comes from the host engine
+        return charset_re(host_charset(op, av, fl))
+    if op == C.IN and any(o == C.CATEGORY for o, _ in av):
+        # \\d, \\w, \\s inside a class: exact (Unicode or ASCII) set from the host engine
+        return charset_re(host_charset(op, av, fl))
+    if op == C.CATEGORY:
+        return charset_re(host_charset(C.IN, [(C.CATEGORY, av)], fl))
     if op == C.LITERAL:
         return lit(chr(av))
     if op == C.NOT_LITERAL:
@@ -184,14 +243,37 @@ def official(ver):
 
 
 def parser_pattern():
-    """the candidate pattern of the current tree's parser.py (first string passed to re.compile)"""
+    """(pattern, flags) of the candidate pattern of the current tree's parser.py: the first
+    constant string passed to re.compile, with the flags argument evaluated over `re`'s constants
+    (None for flags that are not such an expression)"""
     tree = sources().ast_of("parser")
     for n in ast.walk(tree):
         if isinstance(n, ast.Call) and isinstance(n.func, ast.Attribute) and n.func.attr == "compile" and n.args:
             a = n.args[0]
             if isinstance(a, ast.Constant) and isinstance(a.value, str):
-                return a.value
+                fexpr = n.args[1] if len(n.args) > 1 else next((k.value for k in n.keywords if k.arg == "flags"), None)
+                flags = 0
+                if fexpr is not None:
+                    try:
+                        for x in ast.walk(fexpr):
+                            if not isinstance(x, (ast.BinOp, ast.BitOr, ast.Attribute, ast.Name, ast.Load, ast.Constant)):
+                                raise ValueError(ast.dump(x))
+                        flags = int(eval(compile(ast.Expression(fexpr), "<flags>", "eval"), {"re": re, "__builtins__": {}}))
+                    except Exception:  # noqa
+                        flags = None
+                return a.value, flags
     return None
+
+
+def greedy_only(tree):
+    for op, av in tree:
+        if op in (C.MIN_REPEAT, C.BRANCH):
+            return False
+        if op == C.MAX_REPEAT and not greedy_only(av[2]):
+            return False
+        if op == C.SUBPATTERN and not greedy_only(av[-1]):
+            return False
+    return True
 
 
 def _emit(ctx, name, status, witness, detail):
@@ -227,11 +309,34 @@ def grammar_in_official(ctx):
 
 def parser_complete(ctx):
     """C13: language facts behind completeness of parse_cvss_from_text"""
-    pat = parser_pattern()
-    if pat is None:
-        ctx.fail("parser-pattern", "no constant pattern is compiled in parser.py", status="unknown")
+    pf = parser_pattern()
+    if pf is None or pf[1] is None:
+        ctx.fail("parser-pattern", "no constant pattern with constant flags is compiled in parser.py", status="unknown")
         return
-    P = from_pattern(pat)
+    pat, flags = pf
+    try:
+        P = from_pattern(pat, flags=flags)
+    except NotImplementedError as e:
+        ctx.fail("parser-pattern", "pattern outside the translated subset: %s" % e, status="unknown")
+        return
+    sigma = union([z3.Range("A", "Z"), z3.Range("a", "z"), lit(":"), lit("/")])
+    delim = z3.Intersect(anychar(), z3.Complement(sigma))
+    letter = union([z3.Range("A", "Z"), z3.Range("a", "z")])
+    # a candidate match cannot run across a delimiter into a vector (the characters outside
+    # [A-Za-z:/] the pattern can match -- those of the optional prefix group -- are never followed
+    # by a letter, and every valid vector starts with a letter) ...
+    st, w = included(P, z3.Complement(z3.Concat(ALL, delim, letter, ALL)))
+    _emit(ctx, "no candidate runs from a delimiter into a vector", st, w,
+          "no string the candidate pattern %r (flags %d) matches contains a character outside [A-Za-z:/] followed by a letter" % (pat, flags))
+    # ... nor past the delimiter that ends a vector
+    for ver in ("2", "3.0", "3.1"):
+        values, order, mand, prefixes, nd, _ = SPECS[ver]
+        V = valid_superset(values, mand, prefixes)
+        st, w = included(P, z3.Complement(z3.Concat(V, delim, ALL)))
+        _emit(ctx, "no candidate extends a valid[%s] vector past its right delimiter" % ver, st, w,
+              "no string the candidate pattern matches is a valid v%s vector followed by a character outside [A-Za-z:/]" % ver)
+    if not greedy_only(sre_parse.parse(pat, flags)):
+        ctx.fail("parser-pattern-greedy", "the candidate pattern uses alternation or lazy repetition: leftmost match need not be the longest", status="unknown")
     for ver in ("2", "3.0", "3.1"):
         values, order, mand, prefixes, nd, _ = SPECS[ver]
         V = valid_superset(values, mand, prefixes)
